@@ -381,6 +381,13 @@ class SqlImpl(TableImpl):
                     else:
                         needed_cols[node._uuid] = cnt + 1
 
+            if isinstance(nd, verbs.Union) and nd.distinct:
+                # UNION compares whole rows: a subquery below it must not drop the
+                # columns that are not used further up.
+                for operand in (nd.child, nd.right):
+                    for col in Cache.from_ast(operand).selected_cols():
+                        needed_cols[col._uuid] = needed_cols.get(col._uuid, 0) + 1
+
             table, query, sqa_expr = cls.compile_ast(nd.child, needed_cols)
 
         if isinstance(nd, verbs.Mutate | verbs.Summarize):
@@ -536,8 +543,6 @@ class SqlImpl(TableImpl):
             # If column order doesn't match, wrap right AST with a Select to reorder
             if left_col_names != right_col_names:
                 # Get right cache to access Col objects for reordering
-                from pydiverse.transform._internal.pipe.cache import Cache
-
                 right_cache = Cache.from_ast(nd.right)
 
                 # Get Col objects from right cache in the order of left columns
